@@ -500,7 +500,9 @@ func init() {
 	// MockConnect'ed client; afterwards the client must answer a PING or Connect must have
 	// returned an error. Every session runs in a process of its own: a panic in a bare
 	// goroutine (which no RecoverFunc can absorb) is reported with the history as replay.
-	// Routes: "conn" (RecoverFunc records), "conn-norecover" (a handler panic kills the
+	// Routes: "conn-app" (RecoverFunc set, application handlers of all three kinds that panic on
+	// PRIVMSG without source, every NOTICE, short TOPIC / KICK, source-less 366: a recovered
+	// application panic must not stop the client), "conn" (RecoverFunc records), "conn-norecover" (a handler panic kills the
 	// process, as without RecoverFunc), "conn-sasl" (SASL PLAIN configured: a failed or
 	// unexpected SASL exchange makes the client disconnect with an error).
 	liveDirect := func(c Case) Result {
@@ -508,7 +510,7 @@ func init() {
 		if !ok {
 			return Result{Obs: "?bad-args", Sig: ""}
 		}
-		opt := ConnOptions{SASL: route == "conn-sasl", NoRecover: route == "conn-norecover"}
+		opt := ConnOptions{SASL: route == "conn-sasl", NoRecover: route == "conn-norecover", App: route == "conn-app"}
 		obs, oracle := RunConnected(nick, user, evs, opt)
 		sig := route + "/"
 		if strings.HasPrefix(obs, "n=") {
@@ -676,6 +678,12 @@ func init() {
 				one("conn-sasl", Ev{Cmd: "AUTHENTICATE", Params: []string{"PLAIN"}}),
 				one("conn-sasl", Ev{Cmd: "904", Params: []string{"me", "failed"}}),
 				one("conn", Ev{HasSrc: true, Name: "srv", Cmd: "ERROR", Params: []string{"Closing link"}}),
+				// RecoverFunc set and application handlers that panic on the line: the client must go on
+				EncodeHistory("conn-app", "me", "user", []Ev{{Cmd: "PRIVMSG", Params: []string{"me", "hi there"}}}),
+				EncodeHistory("conn-app", "me", "user", []Ev{{HasSrc: true, Name: "a", Cmd: "NOTICE", Params: []string{"me", "x"}}}),
+				EncodeHistory("conn-app", "me", "user", []Ev{{HasSrc: true, Name: "a", Cmd: "TOPIC", Params: []string{"#chan"}}, {HasSrc: true, Name: "a", Cmd: "KICK", Params: []string{"#chan", "bob"}}, {Cmd: "366"}}),
+				one("conn-app", Ev{Cmd: "PRIVMSG", Params: []string{"#chan", "hello"}}, Ev{HasSrc: true, Name: "alice", Cmd: "NOTICE", Params: []string{"#chan", "x"}},
+					Ev{HasSrc: true, Name: "alice", Cmd: "KICK", Params: []string{"#chan", "bob"}}, Ev{Cmd: "366", Params: []string{"me", "#chan", "End"}}, Ev{HasSrc: true, Name: "alice", Cmd: "TOPIC", Params: []string{"#chan"}}),
 			}
 			// the server options that are consumed later (CHANMODES / PREFIX / lengths), on the socket
 			for i, c := range isupportHistories("conn-norecover") {
@@ -696,7 +704,7 @@ func init() {
 			return fixed
 		},
 		Gen: func(r *rand.Rand) Case {
-			route := Pick(r, "conn", "conn", "conn-norecover", "conn-norecover", "conn-sasl")
+			route := Pick(r, "conn", "conn", "conn-norecover", "conn-norecover", "conn-sasl", "conn-app", "conn-app")
 			n := 3 + r.Intn(40)
 			evs := []Ev{}
 			if r.Intn(4) != 0 {
